@@ -252,6 +252,39 @@ func enumerate(ctx *seq.Ctx) {
 			})
 		}
 	}
+	// orchestration keys x metricKeys: every non-empty subset of three fields as key set against every subset of three fields
+	// as metric keys (56 combinations, overlapping ones included). Each entry is valid alone; what the loader accepts must
+	// instantiate and process records (label names must stay unique).
+	ctx.Group("roles/keys-vs-metrickeys")
+	keyFields := []string{"app", "level", "host"}
+	metricFields := []string{"host", "app", "source"}
+	for km := 1; km < 8; km++ {
+		for mm := 0; mm < 8; mm++ {
+			var keys, mkeys, tagParts []string
+			for i, f := range keyFields {
+				if km&(1<<uint(i)) != 0 {
+					keys = append(keys, f)
+					tagParts = append(tagParts, "$"+f)
+				}
+			}
+			for i, f := range metricFields {
+				if mm&(1<<uint(i)) != 0 {
+					mkeys = append(mkeys, f)
+				}
+			}
+			orch := "type: byKeySet\nkeys: [" + strings.Join(keys, ", ") + "]\ntag: t." + strings.Join(tagParts, ".") + "\n"
+			text := skeleton(parts{orchestration: orch, metricKeys: "[" + strings.Join(mkeys, ", ") + "]"})
+			id := fmt.Sprintf("roles/keys=%d/metricKeys=%d", km, mm)
+			ctx.Case(id, true, text, func() (string, string) {
+				outcome, key, msg := evaluate(text, "", opt)
+				bump(ctx, "outcome/roles-keys/"+outcome)
+				if outcome == outRejected {
+					return "", ""
+				}
+				return key, msg
+			})
+		}
+	}
 }
 
 // onlyCase is the case id of a replay (-case / -replay), read from the command line so that replaying one case does not
